@@ -83,3 +83,11 @@ Definition probing_file (pm : Z) (N_order : nat) (t : atable) (arpa_counts : lis
       Some (header_bytes N_order pm 0 include_vocab 0 arpa_counts ++ v ++ s ++ (if include_vocab then strings_bytes words else []))
   | _, _ => None
   end.
+
+Definition rest_file (pm : Z) (N_order : nat) (t : atable) (arpa_counts : list Z) (vbuckets : nat) (buckets : list nat)
+                     (unset : list key) (words : list (list Z)) (include_vocab : bool) : option (list Z) :=
+  match probing_vocab_bytes words vbuckets, rest_probing_image t (S (Z.to_nat (nth 0 arpa_counts 0))) buckets unset with
+  | Some v, Some s =>
+      Some (header_bytes N_order pm 1 include_vocab 0 arpa_counts ++ v ++ s ++ (if include_vocab then strings_bytes words else []))
+  | _, _ => None
+  end.
